@@ -574,9 +574,107 @@ func (st *c04State) checkCarry(l *c04Loop, u, base string, isTop func(*ssa.Basic
 		r.Violation(rule, construct, p.Pos(c04IfPos(l.If)), "no path from the "+u+" loop back to the top of the search: when advancing "+u+" carries into the next higher field that field (and the year limit) is not verified again, so Next returns instants on days/hours the expression excludes")
 		return
 	}
+	// The instant the loop carries from one iteration to the next: the single
+	// time.Time phi of the header.
+	var loopPhi *ssa.Phi
+	nPhi := 0
+	for _, in := range l.Header.Instrs {
+		ph, ok := in.(*ssa.Phi)
+		if !ok {
+			break
+		}
+		if c04IsTimeType(ph.Type()) {
+			loopPhi = ph
+			nPhi++
+		}
+	}
+	if nPhi != 1 {
+		loopPhi = nil
+	}
+	// freshness of a carry test: the tested instant must be the value the loop
+	// continues with (the back-edge value of the loop instant). "stale": the
+	// loop continues with a value obtained from the tested one by further
+	// Add/AddDate calls (fix-ups), which may cross into the next higher unit
+	// after the test was made.
+	freshness := func(ifi *ssa.If, toTop bool, instants []ssa.Value) string {
+		if loopPhi == nil {
+			return "unknown"
+		}
+		stay := ifi.Block().Succs[0]
+		if toTop {
+			stay = ifi.Block().Succs[1]
+		}
+		var preds []*ssa.BasicBlock
+		if stay == l.Header {
+			preds = []*ssa.BasicBlock{ifi.Block()}
+		} else {
+			reach := reachableFrom(stay, map[*ssa.BasicBlock]bool{l.Header: true})
+			for _, pb := range l.Header.Preds {
+				if l.Body[pb] && reach[pb] {
+					preds = append(preds, pb)
+				}
+			}
+		}
+		if len(preds) == 0 {
+			return "unknown"
+		}
+		isInstant := func(v ssa.Value) bool {
+			for _, x := range instants {
+				if x == v {
+					return true
+				}
+			}
+			return false
+		}
+		res := "fresh"
+		for _, pb := range preds {
+			for i, hp := range l.Header.Preds {
+				if hp != pb {
+					continue
+				}
+				v := loopPhi.Edges[i]
+				if isInstant(v) {
+					continue
+				}
+				// does v derive from a tested instant through Add/AddDate (and merges inside the loop)?
+				seen := map[ssa.Value]bool{}
+				var walk func(v ssa.Value, added bool) bool
+				walk = func(v ssa.Value, added bool) bool {
+					if isInstant(v) {
+						return added
+					}
+					if seen[v] {
+						return false
+					}
+					seen[v] = true
+					switch x := v.(type) {
+					case *ssa.Phi:
+						if x.Block() == l.Header || !l.Body[x.Block()] {
+							return false
+						}
+						for _, e := range x.Edges {
+							if walk(e, added) {
+								return true
+							}
+						}
+					case *ssa.Call:
+						if n, _, ok := c04TimeCall(x); ok && (n == "Add" || n == "AddDate") {
+							return walk(x.Call.Args[0], true)
+						}
+					}
+					return false
+				}
+				if walk(v, false) {
+					return "stale"
+				}
+				res = "unknown"
+			}
+		}
+		return res
+	}
 	robust, floorEq := false, false
-	var floorPos token.Pos
-	unknown := false
+	var floorPos, stalePos token.Pos
+	unknown, stale := false, false
 	for _, e := range exits {
 		cmp, ok := decodeCond(e.ifi.Cond, e.toTop)
 		if !ok {
@@ -587,23 +685,49 @@ func (st *c04State) checkCarry(l *c04Loop, u, base string, isTop func(*ssa.Basic
 		ny, cy, oky := c04TimeCall(cmp.Y)
 		kx, iskx := c04ConstInt(c04Strip(cmp.X))
 		ky, isky := c04ConstInt(c04Strip(cmp.Y))
+		var instants []ssa.Value
+		kind := ""
 		switch {
 		case okx && oky && nx == ny && cx.Call.Args[0] != cy.Call.Args[0]:
 			// same accessor on two different instants
+			instants = []ssa.Value{cx.Call.Args[0], cy.Call.Args[0]}
 			if c04AccessorUnit[nx] > c04UnitOrder[u] && (cmp.Op == token.NEQ || cmp.Op == token.LSS || cmp.Op == token.GTR) {
-				robust = true // the next higher field changed
+				kind = "robust" // the next higher field changed
 			} else if nx == acc && (cmp.Op == token.LSS || cmp.Op == token.GTR || cmp.Op == token.LEQ || cmp.Op == token.GEQ) {
-				robust = true // the field itself went down: wrapped
-			} else {
-				unknown = true
+				kind = "robust" // the field itself went down: wrapped
 			}
-		case okx && isky && nx == acc && cmp.Op == token.EQL && ky == floor,
-			oky && iskx && ny == acc && cmp.Op == token.EQL && kx == floor:
+		case okx && isky && nx == acc && cmp.Op == token.EQL && ky == floor:
+			instants, kind = []ssa.Value{cx.Call.Args[0]}, "floor"
+		case oky && iskx && ny == acc && cmp.Op == token.EQL && kx == floor:
+			instants, kind = []ssa.Value{cy.Call.Args[0]}, "floor"
+		}
+		if kind == "" {
+			unknown = true
+			continue
+		}
+		switch freshness(e.ifi, e.toTop, instants) {
+		case "stale":
+			stale = true
+			stalePos = c04IfPos(e.ifi)
+			continue
+		case "unknown":
+			unknown = true
+			continue
+		}
+		if kind == "robust" {
+			robust = true
+		} else {
 			floorEq = true
 			floorPos = c04IfPos(e.ifi)
-		default:
-			unknown = true
 		}
+	}
+	if stale && !robust && !floorEq {
+		why := "the instant is adjusted again (Add/AddDate) between the carry test and the next iteration, and the adjusted instant can lie in the next " + map[string]string{"Day": "month", "Hour": "day", "Minute": "hour", "Second": "minute"}[u] + " although the test did not fire"
+		if u == "Day" {
+			why += ": when local midnight of the 1st does not exist (DST gap at 00:00 on the 1st: America/Asuncion 2017-10-01, America/Havana 2012-04-01) AddDate lands on 23:00 of the last day of the month, t.Day() is not 1, and the DST fix-up then moves t to 01:00 of the 1st without the month being verified again — e.g. 'TZ=America/Asuncion 0 0 12 15 9 *' from 2017-09-20 yields 15 October"
+		}
+		r.Violation(rule, construct, p.Pos(stalePos), "the carry test of the "+u+" loop is made on a stale instant, not on the one the loop continues with: "+why)
+		return
 	}
 	switch {
 	case robust:
